@@ -21,9 +21,9 @@ BOUNDS = (
     "perturbed within 10 % (centre <= 1 px = 10 % of sma0 = 10, eps x(1+-0.1), pa +-0.1 rad); minsma 3 (one case 0), "
     "maxsma 30..36, step 0.1 (thorough also linear step 2 and integrmode mean/median); quick: 8 free fits + 3 "
     "fix_* fits, thorough: 36 + 9.  Well-sampled isophote: stop_code 0, sma >= 5, sma (1 - eps) >= 4, ellipse at "
-    "least 3 px inside the frame.  Tolerances on those: centre 3 sigma + 0.05 px, eps 3 sigma + 0.01, pa (mod pi) "
+    "least 3 px inside the frame.  Tolerances on those: centre 3 sigma + 0.03 px (0.06 for the sector integration modes), eps 3 sigma + 0.01, pa (mod pi) "
     "3 sigma + 0.02 rad, intensity 3 sigma + 1 % (bilinear sampling bias of the curved profile); fixed parameters "
-    "exact (==); model within 2 % for pixels with elliptical radius in [max(6, 5/(1-eps)), 0.8 max sma].")
+    "exact (==); model within 2 % for pixels with elliptical radius in [max(6, 7/(1-eps)), 0.8 max sma].")
 
 RULE = (
     "to_polar cases are keyed by (pa, centre, point, form) and are non-trivial when the point is not the centre; "
@@ -210,8 +210,8 @@ def eval_fit(case):
         dpa = np.abs(((ps - pa + math.pi / 2) % math.pi) - math.pi / 2)
         loose = 1.0 if opts.get('integrmode', 'bilinear') == 'bilinear' else 2.0   # sector modes: coarser centre
         checks = [
-            ('x0', np.abs(xs - x0), 3 * _err(iso.x0_err) + 0.05 * loose),
-            ('y0', np.abs(ys - y0), 3 * _err(iso.y0_err) + 0.05 * loose),
+            ('x0', np.abs(xs - x0), 3 * _err(iso.x0_err) + 0.03 * loose),
+            ('y0', np.abs(ys - y0), 3 * _err(iso.y0_err) + 0.03 * loose),
             ('eps', np.abs(es - eps), 3 * _err(iso.ellip_err) + 0.01),
             ('pa', dpa, 3 * _err(iso.pa_err) + 0.02),
             ('intens', np.abs(ints - truth_i), 3 * _err(iso.int_err) + 0.01 * truth_i),
@@ -234,7 +234,7 @@ def eval_fit(case):
             if model is not None:
                 if not np.array_equal(img, img0):
                     fail('build_ellipse_model/image-modified', 'image modified')
-                rlo, rhi = max(6.0, 5.0 / (1.0 - eps), sma[0] + 1.0), 0.8 * sma[-1]
+                rlo, rhi = max(6.0, 7.0 / (1.0 - eps), sma[0] + 1.0), 0.8 * sma[-1]
                 ins = (r >= rlo) & (r <= rhi)
                 info['n_model_pix'] = int(ins.sum())
                 if ins.any():
